@@ -11,8 +11,10 @@ CHECKS = {
     "C04": ("model_checking",
             "TLC checks the detailed model L1 (spec/Layout.tla, Kanata.tla, constants from the real parser's dump) "
             "against the abstract layered-keymap model P_C04 for all histories within the instance bounds; every model "
-            "transition is replayed on the real code (edge cover, zero drift required for the claim); the family includes two keys "
-            "holding one layer and keys outside defsrc with process-/block-unmapped-keys; random histories beyond the bounds are recorded "
+            "transition is replayed on the real code (edge cover, zero drift required for the claim); P_C04's parameters come from the written "
+            "description, not from the parser; the family includes two keys holding one layer, keys outside defsrc with "
+            "process-/block-unmapped-keys, multis with several transparent items (direct and through aliases) and every mix of "
+            "deflayer / deflayermap spellings of the same layers; random histories beyond the bounds are recorded "
             "from the real code and validated by TLC against P_C04 (which stops judging once 32 events are pending, as the statement does).",
             "5 C04", TECH, BOUNDS),
     "C05": ("model_checking",
@@ -24,11 +26,12 @@ CHECKS = {
     "C06": ("model_checking",
             "TLC checks L1 against the one-shot monitor P_C06 (second key never modified / nothing modified after the first "
             "release / pcancel ends all / exact expiry tick and next-key modification in the sharp zone, also for release variants "
-            "(O2m) / a held one-shot key keeps its output (O5) / the timeout in force is the one of the key tapped last / never lingers) "
+            "(O2m) / a held one-shot key keeps its output (O5) / the timeout in force is the one of the key tapped last / never active past its "
+            "timeout whatever follows (O8) / never lingers) "
             "for every schedule within the instance bounds per end-variant, timeout, rapid-event-delay, key or output-chord, 1-2 "
             "one-shot keys with equal or different timeouts; edge-cover replay binds L1 to the code; random schedules, directed "
-            "multi-step scenarios at realistic timeouts (40 / 60+20) and a 20-fold stacked burst are recorded from the code and "
-            "validated by TLC against P_C06.",
+            "multi-step scenarios at realistic timeouts (40 / 60+20; default rapid-event-delay with macros as the following key), stacked "
+            "activations of 16-25 taps in step with the ticks and a 20-fold burst are recorded from the code and validated by TLC against P_C06.",
             "5 C06", TECH, BOUNDS + "; one-shot stack bounded to 3 in the exhaustive instances"),
     "C01": ("model_checking",
             "TLC checks L1 (Layout.tla, Kanata.tla) composed with the monitor P_C01 (R2: once no physical key is down and the last input "
@@ -36,7 +39,7 @@ CHECKS = {
             "and kanata reports idle, on every further tick) for every physically consistent schedule within the instance bounds on one "
             "small instance per feature and per pairwise feature combination (layers, tap-hold variants, one-shot variants, tap-dance, "
             "chords v1, macros and their cancel forms, fork/switch, overrides, balanced virtual keys, hold-for-duration, on-idle, mouse "
-            "buttons, release-key/layer, rpt); every model transition is replayed on the real code; model counterexamples, burst scripts "
+            "buttons, release-key/layer, rpt; recorded only: chords v2 overlap, dynamic macros cut off by the size limit); every model transition is replayed on the real code; model counterexamples, burst scripts "
             "with the real capacities (queue wrap, >64 states, >8 tap-holds, >16 one-shots, >4 macros), hand-written configurations of "
             "the features outside L1 and random latch-free configurations over the whole action grammar (cfggen) with random consistent "
             "histories + Bound quiet ticks are recorded from the code and validated by TLC against P_C01.",
@@ -48,7 +51,8 @@ CHECKS = {
             "Every accepted configuration is run in watched worker subprocesses (panic, abort, stack overflow, a step over the watchdog or "
             "an error returned to the loop = violation; replay = config + history): targeted reproducers and capacity floods, every atom/list "
             "action in every context (nesting 2), random configurations over the whole action grammar x arbitrary / consistent / flood "
-            "histories over all mapped codes, sweeps of press/repeat/release/tap over all existing key codes. Model-checked sub-claims: TLC "
+            "histories over all mapped codes, sweeps of press/repeat/release/tap over all existing key codes, reload requests "
+            "(spec/ReloadIdx.tla: lrld / next / prev / num over 1-3 files) through the loop stepper. Model-checked sub-claims: TLC "
             "explores L1 (Layout.tla + ChordsV2.tla, every panic site an explicit guarded branch) with scaled-down capacities under the "
             "arbitrary environment and each reachable site's witnesses are scaled to the real capacities and executed; TLC checks "
             "spec/Contracts.tla (parser guarantee => run-time precondition over boundary values), the real parser's accept/reject decision "
@@ -59,7 +63,7 @@ CHECKS = {
     "C03": ("exploration",
             "TLC enumerates structure-aware mutations of a seed corpus of real configurations (spec/CfgMutate.tla: all single "
             "mutations at all sites, bounded double mutations), a grammar sweep (spec/CfgGrammar.tla), name-resolution graphs for variables, "
-            "aliases and templates (spec/CfgRefs.tla, spec/CfgTemplates.tla) and every capacity boundary the parser enforces at limit-1 .. "
+            "aliases and templates (spec/CfgRefs.tla, spec/CfgTemplates.tla), key-prefix chords in every position (spec/CfgPrefixes.tla) and every capacity boundary the parser enforces at limit-1 .. "
             "limit+2 (spec/CfgCaps.tla), and states the allowed "
             "outcome relation (spec/CfgOutcome.tla: Ok, or an error whose span lies inside the file it names and whose rendering "
             "succeeds); every text is executed on the real loader in watched worker subprocesses (panic, stack overflow, abort or "
@@ -87,7 +91,8 @@ CHECKS = {
             "TLC enumerates the macro-body grammar and compares the real parser's SequenceEvent list of every body with "
             "P_C08!MacroExpand (written from the docs); TLC checks L1 against the macro monitor P_C08 (exact step order per "
             "activation, one step per tick, stated delays, completion, cancellation takes effect and releases on time, repeat "
-            "only while held, nothing left down when idle / when the loop may block) for every schedule within the instance "
+            "only while held, a key shared with a plain key stays down while either holds it, nothing left down when idle / when the loop "
+            "may block) for every schedule within the instance "
             "bounds, all 8 variants, cancellation at every step index; edge-cover replay binds L1 to the code; model-level "
             "witnesses, random schedules, cancellation sweeps and bursts of 4-6 concurrent macros are recorded from the code "
             "and validated by TLC against P_C08.",
@@ -102,7 +107,7 @@ CHECKS = {
             "undefined sets decompose into the greedy largest-prefix sub-chords in press order) per chord table for every schedule within "
             "the bounds; every model transition is replayed on the real code; a TLC-enumerated schedule family (spec/Sched_C09.tla: every "
             "key subset x press permutation x gaps {0,T-1,T,T+1} x release permutation x foreign key at every position x held layer, 2-5 "
-            "keys) and random episodes are recorded from the code and validated by TLC against P_C09.",
+            "keys; capacity tables with 17 supersets of one chord) and random episodes are recorded from the code and validated by TLC against P_C09.",
             "5 C09", TECH, BOUNDS + "; v2 tables with a 3rd/4th key depth-bounded (15-25 steps); v2 undefined sets: only the accounting is "
             "claimed; chord actions that are tap-hold / one-shot / macros and (include ...) chord files not covered"),
     "C10": ("translation_validation",
@@ -111,7 +116,9 @@ CHECKS = {
             "DenoteCases), the compiler model (Compile) and the evaluator model (Run, one TLA+ step per loop iteration), and checks "
             "Run(Compile(e)) = Denote(e); the harness gives the rendered text to the real parser, compares the opcodes with Compile, "
             "and calls the real Switch::actions in every enumerated environment; key-timing thresholds 0..65535 are compared "
-            "exhaustively; a sample runs end to end through the stepper and is validated by TLC against P_C10. A violation is a "
+            "exhaustively; spec/ActionTerms.tla states what the parser's post-parse passes must leave of every action term; samples run "
+            "end to end through the ticking and the blocking stepper (real time, not ticks executed) with inputs bound to every kind "
+            "of state, validated by TLC against P_C10. A violation is a "
             "disagreement of the real code with the documented meaning.",
             "5 C10", "TLC evaluation of the documented denotation vs the real parser + evaluator on every enumerated program x environment",
             "expression shapes up to 5 nodes (quick) / 7 (thorough) over 3 leaves per triple; case lists up to 8; dev-profile build"),
@@ -124,7 +131,8 @@ CHECKS = {
             "is sent down every output path (macro, tap-hold, one-shot, chords, overrides, sequences, dynamic macro, zippy ...); the "
             "traces are validated by TLC against P_C11; "
             "random defsrc / deflayermap / process-unmapped-keys lists: the real parser's mapped_keys is compared by TLC with "
-            "P_C11.Intercept computed from the text.",
+            "P_C11.Intercept computed from the text, and across reload scripts (successful, failing late, not parsing, missing) the "
+            "intercepted set read through the hook verif_mapped_keys is compared with P_C11.Intercept of the configuration in force.",
             "5 C11", "TLC over tables extracted from the code (exhaustive) + TLC trace validation of the identity pipeline",
             "undefined behaviour of transmute is not observable, only its precondition (equal discriminant sets) is checked; Linux code tables"),
     "C12": ("model_checking",
@@ -135,7 +143,8 @@ CHECKS = {
             "SeqMode.tla, trie from the parser dump) against the monitor P_C12 (S1 exactly-once, S2, S3 dead end / timeout on the "
             "exact tick, S4 per input mode) for every history within the instance bounds; every model transition is replayed on the "
             "real code incl. the SequenceState; TLC-enumerated typing histories (spec/SeqEnv.tla) for fixed and seeded tables and "
-            "random histories are recorded from the code and validated by TLC against P_C12.",
+            "random histories - incl. a second leader of another mode pressed mid-sequence and OS repeats of held sequence keys - are "
+            "recorded from the code and validated by TLC against P_C12.",
             "5 C12", TECH, BOUNDS + "; MC instances: 2-3 sequence keys + leader, <=2 pending inputs, T in 1..3, typed keys bounded; "
             "P_C12 is soft where the documentation is silent (backtracking matches, a sequence that is also the beginning of a longer "
             "one, overlap groups begun while earlier keys are down); sequence-always-on not combined with hidden-suppressed"),
@@ -146,7 +155,7 @@ CHECKS = {
             "(defoverrides + plain keys) are model-checked L1 || P_C13 with edge-cover replay, and random histories are recorded "
             "from the real stepper - ticking and blocking (no tick after a may-block decision) - and validated by TLC against the "
             "monitor (substituted set while held, outputs released and modifiers back when the combination ends, nothing owed when the "
-            "loop may block (O5), OS repeats forwarded for the key the OS sees down).",
+            "loop may block (O5), OS repeats forwarded for the key the OS sees down); key lists with one key code held twice included.",
             "5 C13", TECH, BOUNDS + "; tables of <= 3 overrides over 2 keys and 3 of the 8 modifiers in the exhaustive part"),
     "C14": ("model_checking",
             "TLC checks L1 (Kanata.tla + KeyRepeat.tla: the KeyOutputs collection over the action algebra and handle_repeat driven by "
@@ -155,7 +164,8 @@ CHECKS = {
             "never a chord's modifier instead of its last-listed key) for every schedule within the instance bounds with an OS repeat "
             "of any held key injected in every state, per key-producing action form nested to depth 2 on 1-3 layers; the parser's table "
             "is compared with the specified collection; edge-cover replay binds L1 to the code; directed and random histories, also on "
-            "sequence-mode, chords-v2 and override configurations outside L1, are recorded from the code and validated by TLC against P_C14.",
+            "sequence-mode (defcfg default and explicit leader modes), no-op key, chords-v2 and override configurations outside L1, are "
+            "recorded from the code and validated by TLC against P_C14.",
             "5 C14", TECH, BOUNDS + "; sequence modes and chords v2 only through recorded traces; completeness claimed only where attribution is unambiguous"),
     "C18": ("model_checking",
             "TLC checks L1 (Kanata.tla FakeKeyOp / CustomPress fakekey, fakekey_idle, fakekey_hold / IdleFire / HeldVkeys; Layout.tla "
@@ -177,7 +187,8 @@ CHECKS = {
             "reload attempt; every transition is replayed on the real code through the deterministic loop stepper (hooks) with fault "
             "injection on temp files; (request state, fault kind, continuation) triples from that graph, scripted retained-state "
             "scenarios and random histories run as lane A (requests), B (request keys neutralised = no reload requested) and C (fresh "
-            "instance of the loaded file fed the same inputs since the reload, compared from the first common idle point) on the real "
+            "instance of the loaded file fed the same inputs - presses, releases and OS repeats - since the reload, compared from the first "
+            "common idle point) on the real "
             "code; TLC validates the recorded lane triples against P_C15 (F1 failed reload = no request, F2 when/how a successful "
             "reload is applied + notifications + equals a restart, F3 lrld/next/prev/num index selection).",
             "5 C15", "TLC exploration of the reload model + edge-cover replay with fault injection + TLC validation of recorded relational lanes",
@@ -186,7 +197,8 @@ CHECKS = {
             "MAPPED_KEYS and device options not observable; the real blocking loop thread is not exercised"),
     "C16": ("translation_validation",
             "spec/CfgLang.tla defines s-expression trees, Norm (documented semantics of include, platform, templates, variables, "
-            "aliases, deflayermap) and the abstraction steps as actions; TLC explores every step at every site and compositions of "
+            "aliases, deflayermap incl. wildcards in any position) and the abstraction steps (incl. conditionals nested in conditionals at "
+            "non-top positions) as actions; TLC explores every step at every site and compositions of "
             "steps from a family of base configurations, checks Norm(Step(c)) = Norm(c) and prints every pair; each pair is given "
             "to the real parser: accepted iff accepted, structurally equal parse results, equal traces on shared random histories; "
             "random compositions of the same steps over configurations from the whole action grammar (transcription cross-checked "
@@ -217,14 +229,15 @@ CHECKS = {
             "3-5 keys, <=1-3 saved macros, <=2-4 stored events, gaps 0..D ticks per instance; control keys processed before the next input "
             "in the sharp instances (the `late` instance explores the rest: known finding); states with >=2 keys still down at the stop are "
             "not expanded in TLC (HashSet release order) but covered by recorded scenarios; time-sensitive keys: one tap-hold key, "
-            "recorded delays, margin 1 tick; deterministic stepper; dev-profile build"),
+            "recorded delays; replay pacing judged exactly (per stepper call) except after a key released during the replay; "
+            "deterministic stepper; dev-profile build"),
     "C20": ("model_checking",
             "TLC explores spec/Zippy.tla (L1 transliteration of zippychord.rs: press/release/tick, constants and subset-map answers from the "
             "real parser) composed with the text-buffer reference model P_C20 (expected text defined on the history: literal typing, base ++ "
             "expansion (++ smart space), longer chord supersedes, follow-up replaces antecedent, modifiers restored) for every physically "
             "consistent history per dictionary instance (extension, overlap, shared prefixes, follow-ups, upper/lower case, shifts, altgr, "
             "smart space add/full, space key); every model transition is replayed on the real code; model-level rejections, drifting edges, "
-            "every entry x permutation x gap x shift x 1-2 further keys, and random typing over random dictionaries are recorded from the "
+            "every entry x permutation x gap x shift x 1-2 further keys, non-default deadlines probed on both sides, and random typing over random dictionaries are recorded from the "
             "real code and validated by TLC against P_C20.",
             "5 C20", TECH,
             "dictionaries <= 4 lines over {a,b,c,space}(+comma); D,W in 2..3 ticks in exhaustive instances (up to 20 in recorded runs); "
